@@ -65,15 +65,15 @@ func (Cut) isT()  {}
 type G interface{ isG() }
 
 type GConst struct{ V bool }
-type GLeaf struct{ Path string }             // bool field
-type GNot struct{ X G }                      //
-type GAnd struct{ A, B G }                   //
-type GOr struct{ A, B G }                    //
-type GStrEq struct{ Path, Const string }     // string field == constant
-type GNil struct{ Path string }              // pointer field == nil
-type GBoolEq struct{ A, B G }                // a == b on bools
-type GType struct{ Path, Type string }       // dynamic type of interface value is Type
-type GDyn struct {                           // bool method through an interface
+type GLeaf struct{ Path string }         // bool field
+type GNot struct{ X G }                  //
+type GAnd struct{ A, B G }               //
+type GOr struct{ A, B G }                //
+type GStrEq struct{ Path, Const string } // string field == constant
+type GNil struct{ Path string }          // pointer field == nil
+type GBoolEq struct{ A, B G }            // a == b on bools
+type GType struct{ Path, Type string }   // dynamic type of interface value is Type
+type GDyn struct {                       // bool method through an interface
 	Path  string
 	Impls map[string]G
 }
@@ -120,6 +120,97 @@ type sFunc struct {
 	Pkg *packages.Package
 }
 type sNone struct{}
+
+// listItem is one element of a local []string that is joined later: text T, present when G holds (nil: always);
+// with Over set it stands for one element per entry of the IR slice at Over (element pattern Elem).
+type listItem struct {
+	G    G
+	T    T
+	Over string
+	Elem string
+}
+
+// sList is a local []string built by append and consumed by strings.Join.
+type sList struct{ Items []listItem }
+
+func isStringSlice(t types.Type) bool {
+	sl, ok := t.Underlying().(*types.Slice)
+	if !ok {
+		return false
+	}
+	b, ok := sl.Elem().Underlying().(*types.Basic)
+	return ok && b.Info()&types.IsString != 0
+}
+
+func orG(a, b G) G {
+	if k, ok := a.(GConst); ok {
+		if k.V {
+			return a
+		}
+		return b
+	}
+	if k, ok := b.(GConst); ok {
+		if k.V {
+			return b
+		}
+		return a
+	}
+	return GOr{A: a, B: b}
+}
+
+func andG(a, b G) G {
+	if a == nil {
+		return b
+	}
+	if b == nil {
+		return a
+	}
+	return GAnd{A: a, B: b}
+}
+
+// listDelta: full = base ⧺ d.
+func listDelta(base, full sList) ([]listItem, bool) {
+	if len(full.Items) < len(base.Items) {
+		return nil, false
+	}
+	for i := range base.Items {
+		if fmt.Sprintf("%v", base.Items[i]) != fmt.Sprintf("%v", full.Items[i]) {
+			return nil, false
+		}
+	}
+	return full.Items[len(base.Items):], true
+}
+
+// joinList renders strings.Join(l, sep): the separator stands before every present element that has a present predecessor.
+func (x *Extractor) joinList(pos token.Pos, l sList, sep T) T {
+	var out T = Seq{}
+	var any G = GConst{V: false}
+	afterRep := false
+	for _, it := range l.Items {
+		if afterRep {
+			if k, ok := any.(GConst); !ok || !k.V {
+				x.fail(pos, "strings.Join: an element follows a repeated element whose presence is not known statically")
+			}
+		}
+		if it.Over == "" {
+			g := it.G
+			if g == nil {
+				g = GConst{V: true}
+			}
+			piece := cat(mkAlt(any, sep, Seq{}), it.T)
+			out = cat(out, mkAlt(g, piece, Seq{}))
+			any = orG(any, g)
+			continue
+		}
+		if it.G != nil {
+			x.fail(pos, "strings.Join: conditionally appended element inside a loop")
+		}
+		body := cat(mkAlt(orG(GIdx{Elem: it.Elem, Op: ">", K: 0}, any), sep, Seq{}), it.T)
+		out = cat(out, Rep{Over: it.Over, Elem: it.Elem, Body: body})
+		afterRep = true
+	}
+	return out
+}
 
 // sVoid is the "value" of a return without results (closures used for their effects on captured accumulators).
 type sVoid struct{}
@@ -183,10 +274,10 @@ type Extractor struct {
 	stack   []*types.Func
 	// Implementers resolves an interface type to the named module types implementing it.
 	Implementers func(*types.Interface) []*types.Named
-	MaxDepth     int // how often one function may be active on the inlining stack
-	Funcs        map[string]bool // functions inlined (evidence)
-	synth  map[ast.Expr]bool // synthesized comparison nodes of desugared switches
-	tsDone bool
+	MaxDepth     int               // how often one function may be active on the inlining stack
+	Funcs        map[string]bool   // functions inlined (evidence)
+	synth        map[ast.Expr]bool // synthesized comparison nodes of desugared switches
+	tsDone       bool
 	// Opaque: calls that cannot be inlined (external functions, interface methods, methods without source)
 	// become leaves named by their normalised text ("n.parent.AssignExpr()", "IsPtr(n.arg.ExprType())").
 	Opaque bool
@@ -475,6 +566,27 @@ func joinSym(c G, old, a, b sym) sym {
 		}
 	}
 	switch av := a.(type) {
+	case sList:
+		bv, ok := b.(sList)
+		ol, ok2 := old.(sList)
+		if !ok || !ok2 {
+			break
+		}
+		da, oka := listDelta(ol, av)
+		db, okb := listDelta(ol, bv)
+		if !oka || !okb {
+			break
+		}
+		out := sList{Items: append([]listItem{}, ol.Items...)}
+		for _, it := range da {
+			it.G = andG(c, it.G)
+			out.Items = append(out.Items, it)
+		}
+		for _, it := range db {
+			it.G = andG(GNot{X: c}, it.G)
+			out.Items = append(out.Items, it)
+		}
+		return out
 	case sStr:
 		bv, ok := b.(sStr)
 		if !ok {
@@ -728,6 +840,9 @@ func zeroOf(t types.Type) sym {
 	if ts == "strings.Builder" || ts == "bytes.Buffer" {
 		return sStr{T: Seq{}}
 	}
+	if isStringSlice(t) {
+		return sList{}
+	}
 	return sNone{}
 }
 
@@ -859,6 +974,26 @@ func (x *Extractor) execRange(pkg *packages.Package, s *ast.RangeStmt, e *env) {
 		if fmt.Sprintf("%v", before) == fmt.Sprintf("%v", after) {
 			continue
 		}
+		if bl, isL := before.(sList); isL {
+			al, isL2 := after.(sList)
+			if !isL2 {
+				x.fail(s.Pos(), "a string list changes kind inside a loop")
+			}
+			d, ok := listDelta(bl, al)
+			if !ok {
+				x.fail(s.Pos(), "loop body rewrites a string list")
+			}
+			out := sList{Items: append([]listItem{}, bl.Items...)}
+			for _, it := range d {
+				if it.Over != "" {
+					x.fail(s.Pos(), "nested loops appending to a string list")
+				}
+				it.Over, it.Elem = p.P, elem.P
+				out.Items = append(out.Items, it)
+			}
+			e.set(k, out)
+			continue
+		}
 		bs, ok1 := before.(sStr)
 		as, ok2 := after.(sStr)
 		if !ok1 || !ok2 {
@@ -956,6 +1091,17 @@ func (x *Extractor) eval(pkg *packages.Package, ex ast.Expr, e *env) sym {
 		t := info.TypeOf(v)
 		if ts := t.String(); (ts == "strings.Builder" || ts == "bytes.Buffer") && len(v.Elts) == 0 {
 			return sStr{T: Seq{}}
+		}
+		if isStringSlice(t) {
+			var l sList
+			for _, el := range v.Elts {
+				sv, ok := x.eval(pkg, el, e).(sStr)
+				if !ok {
+					x.fail(el.Pos(), "non-string element in a string list literal")
+				}
+				l.Items = append(l.Items, listItem{T: sv.T})
+			}
+			return l
 		}
 	}
 	x.fail(ex.Pos(), "unsupported expression %s", exprString(ex))
@@ -1164,6 +1310,15 @@ func (x *Extractor) tryOpaque(pkg *packages.Package, call *ast.CallExpr, e *env)
 			if pn.Imported().Path() == "fmt" && sel.Sel.Name == "Sprintf" {
 				return nil, false
 			}
+			if pn.Imported().Path() == "strings" && sel.Sel.Name == "Join" && len(call.Args) == 2 {
+				if aid, ok := call.Args[0].(*ast.Ident); ok {
+					if v, ok := e.get(info.Uses[aid]); ok {
+						if _, isList := v.(sList); isList {
+							return nil, false
+						}
+					}
+				}
+			}
 			if fn, ok := info.Uses[sel.Sel].(*types.Func); ok && x.decls[fn] != nil {
 				// module helper such as util.IsPtr: keep opaque when it takes non-IR operands (types)
 				return x.opaqueLeaf(pkg, call, e)
@@ -1192,6 +1347,40 @@ func (x *Extractor) evalCallInl(pkg *packages.Package, call *ast.CallExpr, e *en
 	// conversions string(x) / model.DstVarStyle("arg") are constants, handled by the caller
 	switch fun := call.Fun.(type) {
 	case *ast.Ident:
+		if _, isBuiltin := info.Uses[fun].(*types.Builtin); isBuiltin {
+			switch fun.Name {
+			case "make":
+				if t := info.TypeOf(call); t != nil && isStringSlice(t) {
+					if len(call.Args) >= 2 {
+						if tv, ok := info.Types[call.Args[1]]; !ok || tv.Value == nil || tv.Value.String() != "0" {
+							x.fail(call.Pos(), "make of a string list with non-zero length")
+						}
+					}
+					return sList{}
+				}
+			case "append":
+				if base, ok := x.eval(pkg, call.Args[0], e).(sList); ok {
+					out := sList{Items: append([]listItem{}, base.Items...)}
+					for i, a := range call.Args[1:] {
+						v := x.eval(pkg, a, e)
+						if call.Ellipsis.IsValid() && i == len(call.Args)-2 {
+							other, ok := v.(sList)
+							if !ok {
+								x.fail(a.Pos(), "append of a spread value that is not a string list")
+							}
+							out.Items = append(out.Items, other.Items...)
+							continue
+						}
+						sv, ok := v.(sStr)
+						if !ok {
+							x.fail(a.Pos(), "append of a non-string value to a string list")
+						}
+						out.Items = append(out.Items, listItem{T: sv.T})
+					}
+					return out
+				}
+			}
+		}
 		if v, ok := e.get(info.Uses[fun]); ok {
 			if f, ok := v.(sFunc); ok {
 				return x.callClosure(f, call, pkg, e)
@@ -1212,6 +1401,12 @@ func (x *Extractor) evalCallInl(pkg *packages.Package, call *ast.CallExpr, e *en
 				switch full {
 				case "fmt.Sprintf":
 					return x.sprintf(pkg, call, e)
+				case "strings.Join":
+					l, ok1 := x.eval(pkg, call.Args[0], e).(sList)
+					sep, ok2 := x.eval(pkg, call.Args[1], e).(sStr)
+					if ok1 && ok2 {
+						return sStr{T: x.joinList(call.Pos(), l, sep.T)}
+					}
 				}
 				if fn, ok := info.Uses[fun.Sel].(*types.Func); ok && x.decls[fn] != nil {
 					return x.inline(fn, nil, call, pkg, e)
